@@ -1,6 +1,6 @@
 # C12 — a "dead code" report is never a false positive
 SKELS = ["Bss", "BsAs", "BAss", "BAsAs", "Bsn", "Bns", "Bvn", "Bnv", "Bvs", "Bsv", "Bvv", "BsFs", "BFss", "BBsss", "BsBss",
-         "BFAss", "BsFAs", "BAvn", "BFvn", "BAvs", "BBvnn", "BBvns", "BsBvn", "BAFss", "BsAFs", "BAsFs", "BFsAs", "BAsv", "BvAs", "BFAsAs", "BAsFAs"]
+         "BFAss", "BsFAs", "BAvn", "BFvn", "BAvs", "BBvnn", "BBvns", "BsBvn", "BAFss", "BsAFs", "BAsFs", "BFsAs", "BAsv", "BvAs", "BFAsAs", "BAsFAs", "BBssAs"]
 
 NODE_TAGS = ["nm", "num", "aop", "aggop", "cvl", "fn", "fnalt", "dst", "op", "arith", "cmp", "card", "on", "ml0", "ml1", "ml2",
              "inc0", "inc1", "inc2", "without", "grp0", "grp1", "grp2"]
@@ -82,6 +82,8 @@ def jobs(tier):
         out += expand(D, "BFvn", n0_op=1, n0_cmp=[0], n1_fn=0, n1_fnalt=[0, 3])
         out += vv(D, "BAsv", [(0, 0)], ulist=2, ulab=2, n1_aop=0, n1_aggop=0)
         out += vv(D, "BFAsAs", [(0, 0), (0, 1)], ulist=2, ulab=1, n5_nm=0, n1_fn=0, n1_fnalt=0, n2_aop=0, n2_aggop=0, n2_without=1, n4_aop=0, n4_aggop=0, n4_without=1)
+        # a filter comparison with on()/ignoring() inside an arithmetic join: labels the inner join drops must not stay guaranteed
+        out += vv(D, "BBssAs", [(0, 0)], ulist=2, ulab=1, n1_op=1, n1_card=0, n1_cmp=0, n3_nm=0, n5_nm=0, n4_aop=0, n4_aggop=0)
         return out
     if tier == "thorough":
         U = dict(ulist=3, ulab=3)
@@ -106,6 +108,7 @@ def jobs(tier):
         NEST = [(0, 0), (0, 1), (3, 0), (5, 0)]
         out += vv(D, "BBsss", NEST, ulist=2, ulab=1, n1_op=[0, 5], n1_card=0, n1_arith=0, n4_nm=0)
         out += vv(D, "BsBss", NEST, ulist=2, ulab=1, n2_op=[0, 5], n2_card=0, n2_arith=0, n1_nm=0)
+        out += vv(D, "BBssAs", NEST, ulist=2, ulab=1, n1_op=[0, 1, 2], n1_card=0, n1_arith=0, n1_cmp=0, n3_nm=0, n5_nm=0, n4_aop=0, n4_aggop=0)
         out += expand(D, "BAvn", n0_op=[1, 2], n0_cmp=[0, 1, 2, 3, 4, 5], n1_aop=[0, 1, 2], ulist=1)
         out += expand(D, "BFvn", n0_op=[1, 2], n0_cmp=[0, 1, 2, 3, 4, 5], n1_fn=[0, 2])
         out += expand(D, "BBvnn", n0_op=[1, 2], n0_cmp=[0, 1, 2], n1_op=0, n1_arith=[0, 1, 2, 3]) + expand(D, "BBvnn", n0_op=[1, 2], n0_cmp=[0, 1, 2], n1_op=2, n1_cmp=[0, 1])
